@@ -13,7 +13,7 @@ use serde_json::{json, Value};
 use std::io::Write;
 
 fn registry() -> Vec<&'static dyn Check> {
-    vec![&checks_l::C02, &checks_l::C03, &checks_l::C05, &checks_l::C04, &rig_c::C20, &checks_n::C01, &checks_n::C07]
+    vec![&checks_l::C02, &checks_l::C03, &checks_l::C05, &checks_l::C04, &rig_c::C20, &checks_n::C01, &checks_n::C07, &checks_n::C06]
 }
 
 fn find(id: &str) -> &'static dyn Check {
@@ -59,7 +59,7 @@ fn main() {
             while i < count {
                 let seed = from + i * stride;
                 let script = check.generate(seed, tier);
-                let mut o = run_script(check, script.clone(), false);
+                let mut o = run_script_isolated(check, script.clone(), false);
                 if o.ok && (i < samples || (!o.findings.is_empty() && !finding_sample_done)) {
                     if !o.findings.is_empty() {
                         finding_sample_done = true;
@@ -126,14 +126,14 @@ fn main() {
             let script = if v.get("script").is_some() { v["script"].clone() } else { v.clone() };
             let check = find(script["check"].as_str().unwrap_or(""));
             let budget: usize = arg_val(&args, "--budget").and_then(|v| v.parse().ok()).unwrap_or(300);
-            let first = run_script(check, script.clone(), false);
+            let first = run_script_isolated(check, script.clone(), false);
             if first.ok {
                 eprintln!("shrink: script does not fail");
                 std::process::exit(2);
             }
             let clause = first.clause.clone().unwrap();
             let (best, runs) = shrink(check, script, &clause, budget);
-            let fin = run_script(check, best.clone(), false);
+            let fin = run_script_isolated(check, best.clone(), false);
             let out = json!({
                 "property": check.id(),
                 "clause": fin.clause,
